@@ -333,3 +333,86 @@ func runBnd(x *hist, g int, c bndCase) {
 	x.allSign()
 	x.end()
 }
+
+// Last-validators stream: networks of 1, 2, 3 validators with MinValidators in {1, n, n+1}; one status-lowering
+// operation kind (owner pause in lower-case and in upper-case bech32, downtime, double-sign evidence,
+// upgrade pause) is applied to one validator per block until nobody would be left.  Downtime stops before
+// the last validator (a block cannot be committed without its only signer).
+type lastCase struct {
+	n, minv int
+	kind    string
+}
+
+func lastCases() []lastCase {
+	var out []lastCase
+	for n := 1; n <= 3; n++ {
+		for _, mv := range []int{1, n, n + 1} {
+			if mv == 1 && n == 1 && false {
+				continue
+			}
+			for _, k := range []string{"pause", "PAUSE", "downtime", "evidence", "upgrade-pause"} {
+				dup := false
+				for _, o := range out {
+					if o.n == n && o.minv == mv && o.kind == k {
+						dup = true
+					}
+				}
+				if !dup {
+					out = append(out, lastCase{n, mv, k})
+				}
+			}
+		}
+	}
+	return out
+}
+
+func runLast(x *hist, g int, c lastCase, r *hx.Rng) {
+	ids := []int{g}
+	for i := 0; i <= nCand && len(ids) < c.n; i++ {
+		if i != g {
+			ids = append(ids, i)
+		}
+	}
+	x.newBlock(5)
+	x.allSign()
+	for _, id := range ids[1:] {
+		x.claim(id, id, true)
+	}
+	x.setProp(5, uint64(c.minv))
+	x.end()
+	// the genesis validator goes last
+	order := append(append([]int{}, ids[1:]...), g)
+	for i, id := range order {
+		last := i == len(order)-1
+		if c.kind == "downtime" {
+			if last {
+				break
+			}
+			for k := 0; k < 2 && !x.dead; k++ { // settings 0: inactive at the second miss
+				x.newBlock(5)
+				x.allSign(int64(id))
+				x.end()
+			}
+			continue
+		}
+		x.newBlock(5)
+		switch c.kind {
+		case "upgrade-pause":
+			x.upgradePause([]int64{int64(id)}, r)
+			x.allSign()
+		case "evidence":
+			x.allSign()
+			x.evidence([][3]int64{{int64(id), x.h - 1, x.t - 1e9}})
+		case "pause":
+			x.allSign()
+			x.ownerMsg("pause", id)
+		case "PAUSE":
+			x.allSign()
+			x.ownerMsgUpper("pause", id)
+		}
+		x.end()
+	}
+	x.newBlock(5)
+	x.allSign()
+	x.end()
+}
